@@ -266,6 +266,7 @@ func c11Read(chunks []Chunk, mode string, ts []int64) (got []c11Got, dup []c11Go
 }
 
 type c11Case struct {
+	Part  string   `json:"part"` // "a"
 	Alpha string   `json:"alpha"`
 	Seq   []string `json:"seq"`
 	Cfg   c11Cfg   `json:"cfg"`
@@ -274,7 +275,7 @@ type c11Case struct {
 // c11Run executes one (sequence, configuration) case; returns the event string (outcome).
 func c11Run(r *vx.Run, alpha string, atoms []c11Atom, seq []int, cfg c11Cfg) string {
 	rp := func() any {
-		c := c11Case{Alpha: alpha, Cfg: cfg}
+		c := c11Case{Part: "a", Alpha: alpha, Cfg: cfg}
 		for _, a := range seq {
 			c.Seq = append(c.Seq, atoms[a].Name)
 		}
@@ -490,7 +491,7 @@ func TestVerifC11a(t *testing.T) {
 		var c c11Case
 		r.LoadReplay(&c)
 		atoms, ok := alphas[c.Alpha]
-		if !ok {
+		if !ok || c.Part != "a" {
 			fmt.Println("replay is not for part (a)")
 			return
 		}
@@ -588,7 +589,7 @@ func TestVerifC11a(t *testing.T) {
 			evals.Add(int64(len(cfgs)))
 			k := seqs.Add(1)
 			r.SampleAt(k, func() any {
-				c := c11Case{Alpha: ph.alpha, Cfg: cfgs[len(cfgs)-1]}
+				c := c11Case{Part: "a", Alpha: ph.alpha, Cfg: cfgs[len(cfgs)-1]}
 				for _, a := range seq {
 					c.Seq = append(c.Seq, atoms[a].Name)
 				}
@@ -613,7 +614,7 @@ func TestVerifC11a(t *testing.T) {
 	r.Count("sequences_chunkenc", int(seqs.Load()))
 	r.Set("depth_completed_chunkenc", depthDone)
 	r.Set("phases_chunkenc", phaseDesc)
-	r.Set("rule", "part (a): every sequence of atoms (histmodel shape x int|float; full = core shapes + 8 derived gauge, padded and grown variants, one = the same shapes with one representation each, small = 14 colliding shapes) up to the stated length, each run under every listed configuration (plain or start-timestamp chunk encoding with 3 ST patterns, forced chunk cut before any subset of samples, appender re-opened before every append, repeated atoms re-appending the same object) through AppendHistogram/AppendFloatHistogram with the head's new-chunk/recode/prevApp protocol, read back in 5 passes (fresh iterators and objects kept until the end; one recycled iterator and recycled objects with integer samples read both as int and as float; chunks rebuilt from a copy of their bytes and read as float; Seek to every timestamp; append-only re-encoding of every chunk) and compared with histmodel at every timestamp; the caller's objects are re-decoded after every append. distinct_nontrivial counts the enumerated sequences (distinct by construction; the two alphabets are disjoint name spaces) in which an appender recoded the chunk, cut a chunk itself, or inserted empty buckets into the caller's histogram. Parts (b)-(d): see rule_head.")
+	r.Set("rule", "part (a): every sequence of atoms (histmodel shape x int|float; full = core shapes + 9 derived gauge, padded, grown and shifted variants, one = the same shapes with one representation each, small = 14 colliding shapes) up to the stated length, each run under every listed configuration (plain or start-timestamp chunk encoding with 3 ST patterns, forced chunk cut before any subset of samples, appender re-opened before every append, repeated atoms re-appending the same object) through AppendHistogram/AppendFloatHistogram with the head's new-chunk/recode/prevApp protocol, read back in 5 passes (fresh iterators and objects kept until the end; one recycled iterator and recycled objects with integer samples read both as int and as float; chunks rebuilt from a copy of their bytes and read as float; Seek to every timestamp; append-only re-encoding of every chunk) and compared with histmodel at every timestamp; the caller's objects are re-decoded after the last append (every prefix is a case of its own). distinct_nontrivial counts the enumerated sequences (distinct by construction: no sequence is enumerated twice) in which an appender recoded the chunk, cut a chunk itself, or inserted empty buckets into the caller's histogram. Parts (b)-(d): see rule_head.")
 	r.Assume("histmodel (decode + semantic equality) is the trusted reference; shapes are valid histograms by construction (Validate() checked in the self-test)")
 	if !r.Expired() && (r.Get("cases_with_recode") == 0 || r.Get("cases_with_appender_cut") == 0 || r.Get("cases_with_backward_insert_into_caller_histogram") == 0 || r.Get("cases_with_backward_insert_on_negative_side") == 0) {
 		t.Fatalf("vacuous: recode=%d appender cuts=%d backward inserts=%d", r.Get("cases_with_recode"), r.Get("cases_with_appender_cut"), r.Get("cases_with_backward_insert_into_caller_histogram"))
